@@ -1274,6 +1274,23 @@ def _inline(fn, module_tree, cls, depth=0, budget=None, only=None):
                 continue
             call, key, recv = cands[0]
             others_ok = all(_noeffect(n) or n is call for n in ast.walk(st.value) if isinstance(n, ast.Call))
+            # the helper's statements are placed in front of the statement: sound only if the call is evaluated exactly once and unconditionally there -
+            # not inside a comprehension / generator / lambda (it may refer to their variables, and runs per item), a conditional expression arm or a
+            # short-circuited operand
+            def _once(root, target):
+                if root is target:
+                    return True
+                if isinstance(root, (ast.ListComp, ast.SetComp, ast.DictComp, ast.GeneratorExp, ast.Lambda)):
+                    return False
+                if isinstance(root, ast.IfExp):
+                    return _once(root.test, target) if any(n is target for n in ast.walk(root.test)) else False
+                if isinstance(root, ast.BoolOp):
+                    return _once(root.values[0], target) if any(n is target for n in ast.walk(root.values[0])) else False
+                for ch in ast.iter_child_nodes(root):
+                    if any(n is target for n in ast.walk(ch)):
+                        return _once(ch, target)
+                return False
+            others_ok = others_ok and _once(st.value, call)
             h = prep(key)
             done = False
             if others_ok and h is not None and _single_return(h) is None:
